@@ -995,6 +995,27 @@ pub fn build_verifier<'t, G: AffineRepr + 'static>(
     verifier
 }
 
+/// Pedersen bases of an R1CS scenario: the crate's default pair for half of the (name, seed) combinations, an
+/// independent pair of points for the other half -- the same choice for a symbolic run and its native replay.
+/// With the default pair `pc.B` coincides with the curve's standard generator, so code that reaches for
+/// `G::generator()` instead of the bases it was given would go unnoticed.
+pub fn pc_for<G: AffineRepr>(name: &str, seed: u64) -> PedersenGens<G> {
+    let mut h: u64 = 0xcbf29ce484222325;
+    for b in name.bytes() {
+        h ^= b as u64;
+        h = h.wrapping_mul(0x100000001b3);
+    }
+    h ^= seed.wrapping_mul(0x9e3779b97f4a7c15);
+    h ^= h >> 29;
+    if std::env::var("VERIF_DEFAULT_PC").is_ok() || (h >> 7) & 1 == 0 {
+        PedersenGens::default()
+    } else {
+        use ark_std::UniformRand;
+        let mut rng = rand_chacha::ChaChaRng::seed_from_u64(h);
+        PedersenGens { B: G::Group::rand(&mut rng).into(), B_blinding: G::Group::rand(&mut rng).into() }
+    }
+}
+
 pub fn field_inv<F: Field>(x: F) -> F {
     x.inverse().expect("nonzero")
 }
